@@ -38,6 +38,7 @@ fn observed(base: &[(String, String)]) -> (&'static str, &'static str) {
 fn unrelated() -> Vec<(&'static str, String)> {
     vec![
         ("same_names", "pub type O {\n    pub z: u8,\n}\npub type X {\n    pub z: u16,\n}\npub type D {\n    pub z: u8,\n}\n".into()),
+        ("same_names_used_by_bare_name", "pub type X {\n    pub z: [u64; 4],\n}\npub type O {\n    pub x: X,\n    pub p: *const D,\n}\npub type D {\n    pub o: [O; 2],\n}\npub enum E: u8 {\n    Z = 9,\n}\nimpl O {\n    #[address(0x9000)]\n    pub fn f(&self, e: E) -> *const X;\n}\n#[address(0x7000)]\npub extern gx: *mut X;\n".into()),
         ("named_like_generated_vftable", "pub type OVftable {\n    pub z: u64,\n}\n".into()),
         ("vftable_owner_same_name", "pub type O {\n    vftable {\n        pub fn other(&self);\n        pub fn v(&self);\n    },\n}\n".into()),
         ("extern_types_same_names", "#[size(64), align(8)]\nextern type X;\n#[size(3), align(1)]\nextern type O;\n".into()),
